@@ -533,3 +533,22 @@ Lemma example_nearest :
   load fs_ex "/" "tasks" "/p/q/r/s" = Loaded "/p/q/tasks.py" "/p/q" /\
   load fs_ex "/p/q" "tasks" "r/../../x/.." = Loaded "/p/tasks/__init__.py" "/p".
 Proof. repeat split. Qed.
+
+(** * one loader object across several working directories *)
+Lemma session_step fs given name steps k st :
+  nth_error steps k = Some st ->
+  nth_error (session_run fs given name steps) k = Some (step_run fs given name st).
+Proof. intros H. unfold session_run. apply map_nth_error. exact H. Qed.
+
+Theorem session_default_start fs name steps k cwd :
+  nth_error steps k = Some (LLoad cwd) ->
+  guard_exists fs cwd cwd name = true ->
+  exists r, nth_error (session_run fs None name steps) k = Some (RLoad r) /\
+            r = to_loaded (expected fs name (abs_comps cwd cwd)) /\
+            spec_ok fs cwd cwd name (obs_of r) = true.
+Proof.
+  intros Hk G. exists (load fs cwd name cwd). split; [|split].
+  - rewrite (session_step fs None name steps k _ Hk). reflexivity.
+  - apply nearest; exact G.
+  - apply spec_full; exact G.
+Qed.
